@@ -160,8 +160,10 @@ class _ForgerWrapper(object):
     def _sigtools__forger(self, obj):
         return self._signature_forger(obj=self.__wrapped__)
 
-    def __call__(self, *args, **kwargs):
-        return self.__wrapped__(*args, **kwargs)
+    def __call__(_sigtools_self, *args, **kwargs):
+        # not called 'self': the wrapped callable may have a parameter of that
+        # name, which would clash with this one in calls and signatures
+        return _sigtools_self.__wrapped__(*args, **kwargs)
 
     def __get__(self, instance, owner):
         # apply __new__ staticmethod automatic transform
